@@ -204,15 +204,8 @@ def x12n_document(param, src_file, fd_997, fd_html,
         if fd_html:
             if node is not None and node.is_first_seg_in_loop():
                 html.loop(node.get_parent())
-            err_node_list = []
-            while True:
-                try:
-                    next(err_iter)
-                    err_node = err_iter.get_cur_node()
-                    err_node_list.append(err_node)
-                except pyx12.errors.IterOutOfBounds:
-                    break
-            html.gen_seg(seg, src, err_node_list)
+            # the nodes that received an error while this segment was handled
+            html.gen_seg(seg, src, errh.pop_touched())
 
         if fd_xmldoc:
             xmldoc.seg(node, seg)
